@@ -34,7 +34,7 @@ class G:
     def __init__(self, rng): self.rng = rng; self.k = 0; self.tokens = []; self.notes = []; self.hot = False; self.sink = None
     def word(self):
         self.k += 1
-        w = 'w%d' % self.k
+        w = 'w%dq' % self.k              # a number of its own between two letters: found again whatever stands next to it
         if self.rng.random() < 0.4:
             m = self.rng.choice(ALPHA); self.hot = self.hot or any(c in m for c in '&<>"\'')
             w = w + m.strip() + 'z'
@@ -259,6 +259,10 @@ def run(ctx):
                 got = subsequence(need, have)
                 if got < len(need):
                     ctx.violation('xhtml-text-lost', dict(case, css=css), {'missing_from': need[got], 'matched': got, 'of': len(need)}, 'every token in order', {'aspect': 'complete'})
+                # ... and once: every generated word carries a number of its own
+                seen_n = re.findall(r'w(\d+)q', have)
+                twice = sorted(set(t for t in need + g.notes if seen_n.count(re.match(r'w(\d+)q', t).group(1)) > 1))
+                if twice: ctx.violation('xhtml-text-duplicated', dict(case, css=css), twice[:5], 'every word of the document once', {'aspect': 'complete'})
                 gotn = subsequence(g.notes, have)
                 if gotn < len(g.notes):
                     ctx.violation('xhtml-note-text-lost', dict(case, css=css), {'missing_from': g.notes[gotn]}, 'every footnote token, in order', {'aspect': 'complete'})
@@ -271,6 +275,9 @@ def run(ctx):
                     have = tokens_of_text(mm)
                     flat = ' '.join(have)
                     miss = [w for w in need + g.notes if w not in flat]
+                    seen_m = re.findall(r'w(\d+)q', mm)
+                    twice = sorted(set(t for t in need + g.notes if seen_m.count(re.match(r'w(\d+)q', t).group(1)) > 1))
+                    if twice: ctx.violation('moinmoin-text-duplicated', case, twice[:5], 'every word of the document once', {'aspect': 'complete'})
                     if miss: ctx.violation('moinmoin-text-lost', case, miss[:4], 'every token present', {'aspect': 'complete'})
                 except Exception as e:
                     ctx.violation('moinmoin-raised', case, repr(e)[:200], 'a string', {'exception': type(e).__name__})
